@@ -147,4 +147,17 @@ CHECKS["C11"] = {
     "engine": "tlc+vh",
 }
 
+CHECKS["C04"] = {
+    "category": "model_checking",
+    "text": "spec/Decoder.tla, Floats.tla and C04.tla give every typed accessor as a total function (buf, pos) -> set of acceptable outcomes, "
+            "including the strict-prefix/end-of-input rule and UTF-8 validation; spec/CborData.tla decodes the same bytes into data-model trees. "
+            "TLC checks the two definitions against each other on every prefix of every string of head/string/float groups, and emits each "
+            "accessor's expected outcome; all are replayed on the real Decoder (values, end positions, offsets of borrowed slices, error class on "
+            "prefixes). Generated deep items with random head widths and framing are decoded through all 25 accessors and validated by TLC.",
+    "design_ref": "DESIGN.md section 6, C04",
+    "note": "Trusted: TLC, the RFC 8949 / RFC 3629 transcriptions. Composite target types are covered by the C01 check (re-framing events).",
+    "technique": "TLA+ spec of the accessors as total outcome functions cross-checked against a data-model decoder + TLC + replay + trace validation",
+    "engine": "tlc+vh",
+}
+
 NOT_YET = "check not built yet in this round (planned in DESIGN.md section 10); not claimed until it exists"
